@@ -23,6 +23,7 @@ import (
 	"github.com/sassoftware/relic/v8/xverif/known"
 	"github.com/sassoftware/relic/v8/xverif/pegen"
 	"github.com/sassoftware/relic/v8/xverif/pipe"
+	"github.com/sassoftware/relic/v8/xverif/xmlgen"
 )
 
 var (
@@ -480,6 +481,75 @@ func TestC05_DEB(t *testing.T) {
 		}
 		if checked < 3 {
 			failf(t, cd, a, out, "signed list covers %d members, expected debian-binary, control and data", checked)
+		}
+	})
+}
+
+// TestC05_XMLDSig: XML signatures relic writes (VSIX package signatures with every key
+// and digest; ClickOnce manifests with SHA-1, whose algorithm URIs are the standard
+// ones) must validate under the JDK's javax.xml.crypto.dsig implementation.
+func TestC05_XMLDSig(t *testing.T) {
+	root := os.Getenv("VERIF_ROOT")
+	if root == "" {
+		root = "/verif"
+	}
+	jout := filepath.Join(workDir, "java")
+	if err := xmlgen.BuildJava(filepath.Join(root, "java"), jout); err != nil {
+		fmt.Println("VERIF-INCONCLUSIVE: java build:", err)
+		t.FailNow()
+	}
+	java, err := xmlgen.StartJava(jout)
+	if err != nil {
+		fmt.Println("VERIF-INCONCLUSIVE: java start:", err)
+		t.FailNow()
+	}
+	defer java.Close()
+	n := 0
+	rapid.Check(t, func(t *rapid.T) {
+		key := rapid.SampledFrom(pipe.SigningKeys).Draw(t, "key")
+		kind := rapid.SampledFrom([]string{"vsix", "vsix", "appmanifest"}).Draw(t, "kind")
+		h := rapid.SampledFrom([]crypto.Hash{crypto.SHA1, crypto.SHA256, crypto.SHA384, crypto.SHA512}).Draw(t, "hash")
+		n++
+		dir := filepath.Join(workDir, fmt.Sprintf("x%d", n))
+		os.Mkdir(dir, 0o755)
+		defer os.RemoveAll(dir)
+		var sigxml []byte
+		flags := map[string]string{}
+		if kind == "vsix" {
+			if rapid.Bool().Draw(t, "detachcerts") {
+				flags["detach-certs"] = "true"
+			}
+			a := arts.Fixture("vsix", 0)
+			p := filepath.Join(dir, a.Name)
+			os.WriteFile(p, a.Data, 0o644)
+			if err := env.SignLib(&pipe.Req{SigType: "vsix", In: p, Key: key, Hash: h, Flags: flags}); err != nil {
+				t.Fatalf("signing failed: %v", err)
+			}
+			signed, _ := os.ReadFile(p)
+			var err error
+			sigxml, err = arts.ZipMember(signed, func(name string) bool {
+				return strings.HasPrefix(name, "package/services/digital-signature/xml-signature/") && strings.HasSuffix(name, ".psdsxs")
+			})
+			if err != nil {
+				t.Fatalf("no package signature part in relic's output: %v", err)
+			}
+		} else {
+			// Microsoft's sha256/384/512 URIs used for ClickOnce are unknown to the JDK
+			h = crypto.SHA1
+			a := arts.Fixture("appmanifest", 0)
+			p := filepath.Join(dir, a.Name)
+			os.WriteFile(p, a.Data, 0o644)
+			if err := env.SignLib(&pipe.Req{SigType: "appmanifest", In: p, Key: key, Hash: h, Flags: map[string]string{"rfc3161-timestamp": "false"}}); err != nil {
+				t.Fatalf("signing failed: %v", err)
+			}
+			sigxml, _ = os.ReadFile(p)
+		}
+		rec.Case(fmt.Sprintf("xmldsig|%s|%s|%s|%v", kind, key, h, flags), "xmldsig/"+kind+"/"+keys.Kind(key), key != "rsa2048a" || h != crypto.SHA256)
+		rec.Sample("xmldsig/"+kind, map[string]any{"kind": kind, "key": key, "digest": h.String(), "flags": flags})
+		ok, why, err := java.Verify(sigxml, env.Leaf[key].Raw)
+		if err != nil || !ok {
+			evid.SaveCase("TestC05_XMLDSig", map[string]any{"kind": kind, "key": key, "digest": h.String(), "error": fmt.Sprint(why, err), "doc": string(sigxml)})
+			t.Fatalf("JDK XML-DSig validator rejects relic's %s signature (key %s, %s): ok=%v %s %v", kind, key, h, ok, why, err)
 		}
 	})
 }
